@@ -130,6 +130,30 @@ def corpus(seed, n):
             td = G.random_type(rng, ts, G.Opts(p_attr=0.6, max_fields=3, max_variants=3))
         text = S.render(td, rng_for(seed, PROP, "spell", k), extras=False).replace("::educe::Educe", "Educe")
         cases.append(("c%d" % k, td, text))
+    # every trait alone on a generic struct, enum and union (tokens only: nothing is compiled here)
+    class Hand:
+        def __init__(self, traits):
+            self.traits = traits
+    shapes = {"struct": "struct S<T, const N: usize> { #[educe(Deref, DerefMut, Default)] a: T, b: [u8; N] }",
+              "enum": "enum E<T> { #[educe(Default)] V(#[educe(Deref, DerefMut)] T), W { #[educe(Deref, DerefMut)] x: T, y: u8 } }",
+              "union": "union U<T> { #[educe(Default)] a: T, b: u8 }"}
+    hk = 0
+    for shape, body in shapes.items():
+        for t in G.ALL_TRAITS:
+            if shape == "union" and t in ("PartialOrd", "Ord", "Deref", "DerefMut", "Into"):
+                continue
+            spelled = {"Into": "Into(u8)"}.get(t, t)
+            if shape == "union" and t in ("Debug", "PartialEq", "Hash"):
+                spelled = "%s(unsafe)" % t
+            b = body
+            for m in ("Deref", "DerefMut", "Default"):
+                if m != t:
+                    b = b.replace("%s, " % m, "").replace(", %s" % m, "").replace("#[educe(%s)] " % m, "")
+            b = b.replace("#[educe()] ", "")
+            if t == "Into":
+                b = b.replace("a: T", "#[educe(Into(u8))] a: T").replace("V(T)", "V(#[educe(Into(u8))] T)").replace("x: T", "#[educe(Into(u8))] x: T")
+            cases.append(("h%d" % hk, Hand([t]), "#[derive(Educe)]\n#[educe(%s)]\n%s\n" % (spelled, b)))
+            hk += 1
     # requests that must be refused (C13's generator): a subset build has to refuse them as well
     from . import c13
     for k in range(n // 3):
